@@ -267,6 +267,7 @@ func (fr *frame) applyContract(x ssa.Instruction, sig *types.Signature, fc *Func
 		env := &Env{w: fr.w, pkg: fc.Pkg, vars: map[string]TV{}, used: vc.used}
 		env.heap = h.get
 		env.old = old.get
+		env.lookup = fr.w.globalLookup(h, fc.Pkg) // package-level variables (also of imported packages) named by the callee's contract
 		names := pnames
 		if fc.Extern {
 			names = nil
